@@ -110,7 +110,16 @@ def coverage_extra(m, tier):
             total[d] = len(P._grammar.Productions) - 1
     except Exception:
         pass
+    unc = {}
+    try:
+        for d, P in monitors.parser_classes().items():
+            seen = m['sets'].get('productions:' + d, set())
+            unc[d] = [f'{p.name} -> {" ".join(p.prod)}' for p in P._grammar.Productions[1:] if p.number not in seen and
+                      p.name != 'raw_query'][:200]
+    except Exception:
+        pass
     return {
+        'productions_never_reduced': unc,
         'programs': m['counters'].get('accepted_certified', 0),
         'disagreements_checked': sum(e['n'] for e in m['failures'].values()),
         'productions_reduced': {d: f"{len(m['sets'].get('productions:' + d, ()))}/{total.get(d, '?')}" for d in DIALECTS},
